@@ -26,6 +26,8 @@
 (* WriteFails: NoSilentLoss at process level = the process FAILS;          *)
 (* "nodir": a destination that cannot be opened - the process fails;       *)
 (* "grpc", "mixed": the plain rule with another gun / two aggregator kinds.*)
+(* "hang" (the target stops answering, plain file) ~ Hangs,                *)
+(* InterruptTimeout with PatientTimers: TimeoutExitFlushed.                *)
 (* Which exits may lose data - exactly Shutdown!Exempt: a logged timeout,  *)
 (* "Another signal received" after TWO signals, death by SIGHUP/SIGQUIT,   *)
 (* death by SIGINT/SIGTERM's default action when the signal was sent       *)
@@ -51,7 +53,12 @@ Signal == /\ Ev.ev = "Signal"
           /\ UNCHANGED <<sig, inst, fail, scen>>
 
 \* Shutdown!Exempt, on what is observable
-TimeoutExit   == Ev.timeout_exit                                      \* cause "timeout": pandora's own log
+\* cause "timeout": pandora's own log.  A timer excuses missing data only when the SINK kept the aggregator from
+\* finishing (scenario "timeout").  In scenario "hang" the sink is a plain file and what does not end are shots (the
+\* target stops answering right before the signal): Shutdown!TimeoutExitFlushed - the aggregator is stopped by the
+\* cancel of the run itself, not by the end of the instances, so when pandora gives up after its 3 s everything
+\* reported before the signal is flushed and closed: such an exit is judged like an unforced one.
+TimeoutExit   == Ev.timeout_exit /\ scen # "hang"
 SecondExit    == Ev.another_signal /\ Ev.signals >= 2                 \* cause "second": the driver did send two
 UntrappedExit == sig \in {"HUP", "QUIT"} /\ ~Ev.agg_returned          \* cause "untrapped": default action
 EarlyExit     == Ev.killed # "" /\ sig \in {"INT", "TERM"} /\ before = 0 /\ scen = "startup"   \* cause "early"
